@@ -63,6 +63,8 @@ type harness struct {
 	// probes
 	mustLoadFatal bool // malformed file terminates the process (unfixed DefaultFileParser)
 	faultChecks   int
+	notifyReset   bool           // the implementation runs the observers after a reset to the defaults (fix-D46 applied)
+	longLinesOK   bool           // lines longer than bufio's buffer survive a write-back (fix-D45 applied): generate them
 	hangs         map[string]int // hangs seen per re-entrant observer kind (a kind that hung twice is not tried again)
 }
 
@@ -779,6 +781,9 @@ func (h *harness) streamWrite(n int) {
 			exotic, odd = 0, 0
 		}
 		w.text = genText(h.rng, 8, exotic)
+		if h.longLinesOK && h.rng.Chance(4) {
+			w.text += "big_value=" + strings.Repeat("abcdefghi ", 450+h.rng.Intn(200)) + "\n"
+		}
 		if strings.Contains(w.text, "${") {
 			continue
 		}
